@@ -3135,6 +3135,21 @@ package goatlang
 //@   axioms TOKARR
 //@   requires wfC(c) && tok != nil && len(tok.Tokens) >= 3 && tokArr(arr(tok.Tokens)) && (forall j int :: 0 <= j && j < len(tok.Tokens) ==> tok.Tokens[j] != nil)
 //@   callsite#builtinwins (*compiler).compile: builtinMap[tok.Tokens[0].Text] == 0
+//@ -- make(map[K]V, n): the size hint is not compiled (NEWMAP takes nothing from the stack);
+//@ -- make([]T, n): the length, then MAKE
+//@ func typeFromToken
+//@   property C07 C11
+//@   trusted
+//@   requires wfC(c)
+//@   modifies allbut(A$instruction,H$token)
+//@   allocates elems(Value) elems(string) elems(int)
+//@   ensures wfC(c) && keepsC(c) && tokensKept()
+//@ func (*compiler).compile case "make"
+//@   property C07 C11
+//@   axioms TOKARR
+//@   requires wfC(c) && tok != nil && len(tok.Tokens) >= 1 && tokArr(arr(tok.Tokens)) && (forall j int :: 0 <= j && j < len(tok.Tokens) ==> tok.Tokens[j] != nil)
+//@   ensures#map typ.base() == TypeMap ==> len(res) == 1 && res[0].Code == codeNewMap
+//@   ensures#slice typ.base() == TypeSlice ==> len(res) >= 1 && res[len(res)-1].Code == codeMake
 //@ -- an init function is called where it is declared, every time its package is compiled
 //@ func (*compiler).compile case "init"
 //@   property C15
